@@ -172,6 +172,8 @@ type packet struct {
 
 type nodeObs struct { // after one local event
 	Ev      string // Coq levent without the iteration order
+	Net     *mMsg  // LNet: the message and its sender
+	NetFrom uint32
 	NeedOrd bool
 	Outs    []mMsg
 	Marks   string // Coq term
